@@ -1764,3 +1764,156 @@ func VH_C02_replication_staleterm_in_pipeline() {
 	vAssert(told, "ST-stale-term-reply-reaches-the-leader")
 	vReach("end")
 }
+
+// vProbePeer: handshake ok; the first probe is refused (the peer holds only entry 1), later requests succeed.
+func vProbePeer(conn *vPipeEnd) {
+	br := bufio.NewReader(conn)
+	bw := bufio.NewWriter(conn)
+	appends := 0
+	for {
+		b, err := br.ReadByte()
+		if err != nil {
+			return
+		}
+		switch rpcType(b) {
+		case rpcIdentity:
+			q := &identityReq{}
+			if q.decode(br) != nil {
+				return
+			}
+			_ = (&identityResp{resp{term: q.term, result: success}}).encode(bw)
+		case rpcAppendEntries:
+			q := &appendReq{}
+			if q.decode(br) != nil {
+				return
+			}
+			for k := uint64(0); k < q.numEntries; k++ {
+				e := &entry{}
+				if e.decode(br) != nil {
+					return
+				}
+			}
+			appends++
+			if appends == 1 {
+				_ = (&appendResp{resp{term: q.term, result: prevEntryNotFound}, 1}).encode(bw)
+			} else {
+				_ = (&appendResp{resp{term: q.term, result: success}, q.prevLogIndex + q.numEntries}).encode(bw)
+			}
+		default:
+			return
+		}
+		if bw.Flush() != nil {
+			return
+		}
+	}
+}
+
+//verif:check C04,C09,C15 sched=coop maxsteps=800000 onunwind=violation stubs=rt,timers,valuefile,abslog onblock=violation reach=writer-in-flight,deposed,released,end desc="a leader that is deposed inside a request handler (a higher-term AppendEntries whose entries conflict with its own uncommitted ones) while one of its replications is in the middle of sending those entries (the network write is slow): the replication goroutine never reads, through the log view it holds, entries that the handler has meanwhile removed and rewritten (it would ship bytes of the new term under its old-term request, or touch unmapped memory)" bounds="leader log of 3 entries, follower at 1; the pipeline's first request (2 entries) held in its network write while the handler truncates at 2 and appends the new leader's entry; then the state loop's release"
+func VH_C04_deposed_leader_replication() {
+	r := vLoopNode(Leader)
+	a := vAbs(r.log)
+	for i := uint64(2); i <= 3; i++ {
+		a.ents = append(a.ents, vEncodeEntry(&entry{index: i, term: 1, typ: entryUpdate, data: vBytes("old", 1)}))
+	}
+	a.flushed = 1
+	r.lastLogIndex, r.lastLogTerm = 3, 1
+	r.hbTimeout = 1000
+	writes, gate, reached, gateOpen := 0, make(chan struct{}), make(chan struct{}), false
+	r.dialFn = func(network, address string, timeout time.Duration) (net.Conn, error) {
+		x, y := vPipe()
+		x.onWrite = func() {
+			writes++
+			if writes == 4 { // identity, probe, probe, then the pipeline's first request
+				close(reached)
+				<-gate
+			}
+		}
+		go vProbePeer(y)
+		return x, nil
+	}
+	r.resolver.addrs[2] = vAddr(2)
+	l := r.ldr
+	l.replUpdateCh = make(chan replUpdate, 64)
+	repl := &replication{
+		node: r.configs.Latest.Nodes[2], rtime: newRandTime(),
+		status:        replicationStatus{id: 2, node: r.configs.Latest.Nodes[2]},
+		ldrStartIndex: 1, ldrLastIndex: r.lastLogIndex, nextIndex: r.lastLogIndex + 1,
+		connPool: r.getConnPool(2), hbTimeout: r.hbTimeout, timer: newSafeTimer(),
+		log: r.log.ViewAt(0, r.lastLogIndex), snaps: r.snaps,
+		stopCh: make(chan struct{}), replUpdateCh: l.replUpdateCh, leaderUpdateCh: make(chan leaderUpdate, 1),
+	}
+	l.repls[2] = repl
+	areq := &appendReq{req: req{r.term, r.nid}, ldrCommitIndex: r.commitIndex, prevLogIndex: r.lastLogIndex, prevLogTerm: r.lastLogTerm}
+	ended := make(chan struct{})
+	l.wg.Add(1)
+	go func() { defer l.wg.Done(); repl.runLoop(areq); close(ended) }()
+	vSetIdleHook(func() {
+		// nothing can move: the slow network write completes (or times out) eventually
+		if !gateOpen {
+			gateOpen = true
+			close(gate)
+		}
+	})
+	<-reached
+	vReach("writer-in-flight")
+	// node 3 has won term 2 and sends its entry for index 2: this node is deposed inside the handler
+	ne := &entry{index: 2, term: 2, typ: entryUpdate, data: vBytes("new", 1)}
+	hc, _ := vMkConn(vEncodeEntry(ne))
+	hreq := &appendReq{req: req{2, 3}, prevLogIndex: 1, prevLogTerm: 1, ldrCommitIndex: 1, numEntries: 1}
+	res, _ := r.onAppendEntriesRequest(hreq, hc)
+	vAssert(res == success && r.state == Follower && r.term == 2 && r.lastLogIndex == 2, "DL-deposed-and-log-rewritten")
+	vReach("deposed")
+	if !gateOpen {
+		gateOpen = true
+		close(gate) // the replication's network write completes
+	}
+	l.release() // what the state loop does next
+	<-ended
+	vReach("released")
+	vReach("end")
+}
+
+//verif:check C15 sched=coop maxsteps=800000 onunwind=violation stubs=rt,timers,valuefile,abslog onblock=violation reach=reported,end desc="a storage error hit by the pipeline writer goroutine of a replication (reading the entries to send fails): the error is reported to the leader's state loop (which shuts the node down with it) - the goroutine's panic never escapes and kills the process" bounds="leader log of 3 entries, follower at 1; the pipeline's first read of entries fails"
+func VH_C15_pipeline_writer_storage_error() {
+	r := vLoopNode(Leader)
+	a := vAbs(r.log)
+	for i := uint64(2); i <= 3; i++ {
+		a.ents = append(a.ents, vEncodeEntry(&entry{index: i, term: 1, typ: entryUpdate, data: vBytes("old", 1)}))
+	}
+	a.flushed = 3
+	a.getNFailAt = 1
+	r.lastLogIndex, r.lastLogTerm = 3, 1
+	r.hbTimeout = 1000
+	r.dialFn = func(network, address string, timeout time.Duration) (net.Conn, error) {
+		x, y := vPipe()
+		go vProbePeer(y)
+		return x, nil
+	}
+	r.resolver.addrs[2] = vAddr(2)
+	l := r.ldr
+	l.replUpdateCh = make(chan replUpdate, 64)
+	repl := &replication{
+		node: r.configs.Latest.Nodes[2], rtime: newRandTime(),
+		status:        replicationStatus{id: 2, node: r.configs.Latest.Nodes[2]},
+		ldrStartIndex: 1, ldrLastIndex: r.lastLogIndex, nextIndex: r.lastLogIndex + 1,
+		connPool: r.getConnPool(2), hbTimeout: r.hbTimeout, timer: newSafeTimer(),
+		log: r.log.ViewAt(0, r.lastLogIndex), snaps: r.snaps,
+		stopCh: make(chan struct{}), replUpdateCh: l.replUpdateCh, leaderUpdateCh: make(chan leaderUpdate, 1),
+	}
+	areq := &appendReq{req: req{r.term, r.nid}, ldrCommitIndex: r.commitIndex, prevLogIndex: r.lastLogIndex, prevLogTerm: r.lastLogTerm}
+	ended := make(chan struct{})
+	go func() { repl.runLoop(areq); close(ended) }()
+	<-ended
+	told := false
+	for len(l.replUpdateCh) > 0 {
+		u := <-l.replUpdateCh
+		if e, ok := u.update.(error); ok {
+			_, isOp := e.(OpError)
+			vAssert(isOp, "PW-leader-told-the-storage-error")
+			told = true
+		}
+	}
+	vAssert(told, "PW-storage-error-of-the-writer-reaches-the-leader")
+	vReach("reported")
+	vReach("end")
+}
